@@ -6,7 +6,7 @@
     PublisherConfig, every answer script of the wrapped publisher, every sequence of calls over a
     heap of (possibly re-published) objects, every emit/Ack/Nack/Close sequence, every sequence of
     handler outcomes. *)
-From WM Require Import Base.Prelude Message.Model Decor.Model Decor.Monitor Decor.Heap Decor.Proofs Decor.SubProofs Decor.SubAccept Decor.HeapProofs Decor.HeapRefine.
+From WM Require Import Base.Prelude Message.Model Decor.Model Decor.Monitor Decor.Heap Decor.Proofs Decor.SubProofs Decor.SubAccept Decor.HeapProofs Decor.HeapRefine Decor.HeapCount.
 
 (** ** publisher decorators are transparent *)
 
@@ -190,14 +190,33 @@ Theorem C20_duplicates_acceptor : forall st script topic idx h,
                     (hreads (ho_heap (publish_h st script topic idx h)) idx)) = true.
 Proof. exact publish_h_call_ok_dup. Qed.
 
-(** the acceptor the check runs ([pub_monitor_any]) accepts every run of the in-place model whose
-    batches repeat nothing.  Partial for batches WITH repetition: there [call_ok_dup] is proved
-    ([C20_duplicates_acceptor]) but the counting clause is compared with the code, not proved *)
+(** the publish metric of one in-place call, ANY batch (the same object any number of times): one
+    observation iff the call reaches a metrics layer with a non-empty batch whose first position holds
+    an uncounted object; label success = the call returned nil.  (Simulation between the in-place and
+    the by-value run that ignores the transform trail — the only thing repetition changes.) *)
+Theorem C20_inplace_counted_once : forall st script topic idx h, hvalid_all h idx ->
+  ho_obs (publish_h st script topic idx h) =
+  match hreads h idx with
+  | [] => []
+  | m0 :: _ => if reaches_metrics st (hreads h idx) && negb (pm_mark m0)
+               then [pub_label (first_metrics_name st) m0 (ho_res (publish_h st script topic idx h))]
+               else []
+  end.
+Proof. exact publish_h_obs. Qed.
+Theorem C20_inplace_simulates : forall st script topic idx h msgs,
+  hvalid_all h idx -> map untrail (hreads h idx) = map untrail msgs ->
+  ho_obs (publish_h st script topic idx h) = po_obs (publish st script topic msgs)
+  /\ ho_res (publish_h st script topic idx h) = po_res (publish st script topic msgs)
+  /\ ho_script (publish_h st script topic idx h) = po_script (publish st script topic msgs).
+Proof. exact publish_h_simulates. Qed.
+
+(** the acceptor the check runs ([pub_monitor_any]) accepts EVERY run of the in-place model: any
+    stack, heap, script and call sequence, batches with or without repeated objects *)
 Theorem C20_publish_inplace_model_accepted : forall st heap script calls tab,
-  good_calls (length heap) calls ->
+  valid_calls (length heap) calls ->
   counts_agree plabel_eqb tab (ps_obs (prun_h st heap script calls)) = true ->
   pub_monitor_any st (pobs_run_h st (PS heap script [] [] []) calls) tab = true.
-Proof. exact pub_monitor_any_model. Qed.
+Proof. exact pub_monitor_any_model_all. Qed.
 
 (** ** a wrapped publisher that panics (script answer [e_panic]) *)
 Theorem C20_publish_panic_escapes : forall st script topic msgs,
@@ -342,6 +361,8 @@ Print Assumptions C20_inplace_refines.
 Print Assumptions C20_inplace_sequence_refines.
 Print Assumptions C20_duplicates_transparent.
 Print Assumptions C20_duplicates_acceptor.
+Print Assumptions C20_inplace_counted_once.
+Print Assumptions C20_inplace_simulates.
 Print Assumptions C20_publish_inplace_model_accepted.
 Print Assumptions C20_publish_panic_escapes.
 Print Assumptions C20_publish_label_repaired.
